@@ -22,7 +22,7 @@ go test -vet=off -count=1 ./... >/tmp/seed_suite.log 2>&1; SUITE_RC=$?
 cp "$DEMO" "$DIR/zz_seed_demo_test.go"
 go test -vet=off -count=1 "./$DIR" >/tmp/seed_demo.log 2>&1; DEMO_RC=$?
 rm "$DIR/zz_seed_demo_test.go"
-CHECK_OUT=$(/verif/bin/govc check "$PROP" -repo "$WT" -no-evidence 2>&1 | grep -E "VIOLATION|replayed|^property|ERROR" | sed "s,$WT,<scratch>,g")
+CHECK_OUT=$(${GOVC:-/verif/bin/govc} check "$PROP" -repo "$WT" -no-evidence 2>&1 | grep -E "VIOLATION|replayed|^property|ERROR" | sed "s,$WT,<scratch>,g")
 echo "$CHECK_OUT" | grep -q VIOLATION && DETECTED=true || DETECTED=false
 echo "clean-tree demo rc=$CLEAN_RC  build rc=$BUILD_RC  suite-with-change rc=$SUITE_RC  demo-with-change rc=$DEMO_RC  detected=$DETECTED"
 echo "$CHECK_OUT" | tail -4
@@ -37,7 +37,7 @@ check=open('/dev/stdin').read() if False else ''
 meta={"property":prop,"name":name,"breaks":prop,"demo_package_dir":d,
  "needs_to_manifest":notes,
  "confirmed_by_me":{"repo_commit":"$(git -C /repo rev-parse --short HEAD)","patch_applies":True,"build_with_change":"ok","full_suite_with_change":"pass (go test -vet=off -count=1 ./...)","demo_with_change":"FAIL","demo_without_change":"pass"},
- "ran":["git apply patch.diff (scratch worktree of /repo HEAD)","go build ./...","go test -vet=off -count=1 ./...","go test -vet=off -count=1 ./"+d+" with demo_test.go copied in (with and without the change)","/verif/bin/govc check "+prop+" -repo <scratch>"],
+ "ran":["git apply patch.diff (scratch worktree of /repo HEAD)","go build ./...","go test -vet=off -count=1 ./...","go test -vet=off -count=1 ./"+d+" with demo_test.go copied in (with and without the change)","${GOVC:-/verif/bin/govc} check "+prop+" -repo <scratch>"],
  "detected_by_check":det=="true",
  "check_output":"""$CHECK_OUT"""}
 json.dump(meta,open(out+'/meta.json','w'),indent=1)
